@@ -1245,6 +1245,16 @@ impl Core {
 			},
 		)?;
 
+		// Re-open the WAL writer. It was created in `CoreInner::new`, before the replay: a
+		// repair replaces the damaged segment file (or deletes it), which would leave
+		// that writer appending to the old, now unlinked file - every commit made after
+		// such a recovery would silently vanish at the next open.
+		{
+			let mut wal_guard = inner.wal.write();
+			*wal_guard =
+				Wal::open_with_min_log_number(&wal_path, min_wal_number, wal::Options::default())?;
+		}
+
 		// Set recovered memtable as active (if any)
 		if let Some(memtable) = recovered_memtable {
 			let mut active_memtable = inner.active_memtable.write()?;
